@@ -60,6 +60,20 @@ pub fn reply_kinds() -> Vec<(String, Vec<u8>, bool)> {
     v.push(("echo hello".into(), ref_encode(3, 2, &[0xFF], true), false));
     v.push(("echo query".into(), ref_encode(3, 2, &[0x00], true), false));
     v.push(("echo request".into(), ref_encode(3, 3, &[0xA9], true), false));
+    // a garbled line followed by a good one (a bus that asks again after a garbled reply must still pace the reply it
+    // finally returns; on the unchanged tree the first exchange fails and the second line answers the next message)
+    let code = |st: State| STATES.iter().find(|s| s.0 == st).unwrap().1;
+    let mut bad = ref_encode(3, 4, &[code(State::PageLoaded)], true);
+    let n = bad.len();
+    bad[n - 3] = if bad[n - 3] == b'0' { b'1' } else { b'0' }; // wrong checksum digit
+    for (name, st, inprog) in [("garbled then report PageShowInProgress", State::PageShowInProgress, true), ("garbled then report PageLoadInProgress", State::PageLoadInProgress, true), ("garbled then report PageLoaded", State::PageLoaded, false)] {
+        let mut two = bad.clone();
+        two.extend_from_slice(&ref_encode(3, 4, &[code(st)], true));
+        v.push((name.into(), two, inprog));
+    }
+    let mut two = b"?\r\n".to_vec();
+    two.extend_from_slice(&ref_encode(3, 4, &[code(State::PageShowInProgress)], true));
+    v.push(("malformed then report PageShowInProgress".into(), two, true));
     v
 }
 
@@ -177,17 +191,25 @@ fn confirm_real(m1: &Message<'static>, r1: &(String, Vec<u8>, bool), m2: &Messag
     for (clause, class, detail) in cands {
         let which = if detail.starts_with("#1 ") { 1 } else { 0 };
         match clause {
+            // lower bounds: a correct bus sleeps at least the bound every time, so ONE measurement below it confirms
+            // the candidate; on a loaded machine a measurement can be inflated by scheduling, so up to 5 are taken
             "30ms-after-data-chunk" => {
-                if let Some(ms) = real_measure(&pair) {
-                    if ms[which].0 < 0.030 {
-                        confirmed.push((clause, class, format!("{} | real clock: {:.2} ms between the chunk's last write and the next write", detail, ms[which].0 * 1e3)));
+                for _ in 0..5 {
+                    if let Some(ms) = real_measure(&pair) {
+                        if ms[which].0 < 0.030 {
+                            confirmed.push((clause, class.clone(), format!("{} | real clock: {:.2} ms between the chunk's last write and the next write", detail, ms[which].0 * 1e3)));
+                            break;
+                        }
                     }
                 }
             }
             "100ms-after-in-progress-report" => {
-                if let Some(ms) = real_measure(&pair) {
-                    if ms[which].1 < 0.100 {
-                        confirmed.push((clause, class, format!("{} | real clock: returned {:.2} ms after reading the report", detail, ms[which].1 * 1e3)));
+                for _ in 0..5 {
+                    if let Some(ms) = real_measure(&pair) {
+                        if ms[which].1 < 0.100 {
+                            confirmed.push((clause, class.clone(), format!("{} | real clock: returned {:.2} ms after reading the report", detail, ms[which].1 * 1e3)));
+                            break;
+                        }
                     }
                 }
             }
@@ -308,6 +330,9 @@ pub fn run(ctx: &Ctx) -> Report {
     for (i, m) in ks.iter().enumerate() {
         let rs: Vec<usize> = if reply_due(m) && i == ks.iter().position(|x| matches!(x, Message::QueryState(_))).unwrap() { (0..rk.len()).collect() } else if reply_due(m) { vec![neutral, inprog] } else { vec![neutral] };
         for r in rs {
+            if rk[r].0.starts_with("garbled") || rk[r].0.starts_with("malformed") {
+                continue; // two-line kinds: the exchange fails on the first line; they are judged on the virtual clock by what is actually returned
+            }
             let pair = [(m, &rk[r]), (&follow, follow_r)];
             let is_chunk = matches!(m, Message::SendData(..));
             let got_inprog = reply_due(m) && rk[r].2;
